@@ -134,12 +134,27 @@ def _run_task(modname, fname, kwargs):
 		sh = getattr(mod, fname)(**kwargs)
 	except HarnessError:
 		raise
-	except Exception as e:   # a crash of the harness is not a verdict
-		raise HarnessError(f'task {fname}{kwargs} crashed: {e!r}\n{traceback.format_exc()}')
+	except Exception as e:
+		if _raised_by_code_under_test(e):
+			# the real code raised where the harness did not expect it to: a verdict on the code, replayable by re-running the task
+			sh = Shard()
+			sh.evals = 1
+			sh.violation('unexpected-exception-in-gambit', dict(task=[fname, kwargs]), 'no exception', traceback.format_exc()[-1500:])
+		else:   # a crash of the harness is not a verdict
+			raise HarnessError(f'task {fname}{kwargs} crashed: {e!r}\n{traceback.format_exc()}')
 	d = sh.pack()
 	d['task'] = [fname, kwargs]
 	d['wall'] = time.time() - t0
 	return d
+
+
+def _raised_by_code_under_test(e):
+	"""True when the traceback passes through gambit's sources after the last harness frame."""
+	from mc import build
+	src = os.path.realpath(build.SRC) + os.sep
+	frames = [f.filename for f in traceback.extract_tb(e.__traceback__)]
+	last_mc = max([i for i, f in enumerate(frames) if os.path.realpath(f).startswith(VERIF + os.sep)], default=-1)
+	return any(os.path.realpath(f).startswith(src) for f in frames[last_mc + 1:])
 
 
 def run_tasks(modname, tasks, workers=None, in_process=False):
@@ -294,7 +309,12 @@ def main(argv=None):
 	if args.replay:
 		with open(args.replay) as f:
 			body = unbytes(json.load(f))
-		vs = mod.replay(body['case'], body.get('kind'))
+		if body.get('kind') == 'unexpected-exception-in-gambit':
+			fname, kw = body['case']['task']
+			d = _run_task(modname, fname, kw)
+			vs = d['violations']
+		else:
+			vs = mod.replay(body['case'], body.get('kind'))
 		if vs:
 			findings = load_findings()
 			for v in vs:
